@@ -168,8 +168,9 @@ func EnumName(tag int, value uint32) string {
 // the string is the normalized name, otherwise it's the 0x prefixed hex value.
 func EnumStr[T ~uint32](value T) string {
 	if tag := enums[reflect.TypeFor[T]()]; tag != 0 {
-		name := EnumName(tag, uint32(value))
-		return name
+		if name := EnumName(tag, uint32(value)); name != "" {
+			return name
+		}
 	}
 	return fmt.Sprintf("0x%08X", uint32(value))
 }
